@@ -1,6 +1,7 @@
 package vh
 
 import (
+	"io"
 	"bytes"
 	"crypto/x509"
 	"errors"
@@ -48,6 +49,14 @@ type Script struct {
 }
 
 func (s Script) err() error {
+	// the texts of the io sentinels are returned AS those sentinels (a served agent whose own upstream
+	// connection ended returns exactly io.EOF)
+	switch s.Err {
+	case "EOF":
+		return io.EOF
+	case "unexpected EOF":
+		return io.ErrUnexpectedEOF
+	}
 	if s.Err != "" || s.HasErr {
 		return errors.New(s.Err)
 	}
